@@ -499,6 +499,21 @@ def stall_source(kind: str, data: bytes, limit: int, rng):
     """-> (file object, cleanup)"""
     if kind == "duck-blocking-read":
         return _DuckBlockingReader(data, limit), lambda: None
+    if kind in ("seekable-raw", "seekable-raw-buffered"):
+        # a SEEKABLE unbuffered raw object - open(path, 'rb', buffering=0) on a file another process is still appending to:
+        # bytes past what has been written so far have simply not arrived
+        class SeekableStallRaw(sources.StallRaw):
+            def seekable(self):
+                return True
+
+            def tell(self):
+                return self.pos
+
+            def seek(self, offset, whence=0):
+                self.pos = {0: offset, 1: self.pos + offset, 2: self.limit + offset}[whence]
+                return self.pos
+        raw = SeekableStallRaw(data, limit)       # (whole reads, as a file object gives them; the stall sits on a frame boundary)
+        return (raw if kind == "seekable-raw" else io.BufferedReader(raw)), lambda: None
     if kind == "raw":
         return sources.StallRaw(data, limit, chunk=rng.choice([1 << 30, 7, 64])), lambda: None
     if kind == "buffered":
@@ -557,7 +572,7 @@ def parse_case(ctx, rng):
     for j in js[: 6 if ctx.tier == "quick" else 30]:
         limit = frames[j - 1]["span"][1]
         for kind in ("raw", "buffered", rng.choice(["rwpair", "response-like", "duck-blocking-read"]),
-                     rng.choice(["socket-raw", "socket-buffered"])):
+                     rng.choice(["socket-raw", "socket-buffered"]), rng.choice(["seekable-raw", "seekable-raw-buffered"])):
             for integ in integs:
                 entry = rng.choice(["flat", "flat", "grouped", "to_graph"])
                 f, cleanup = stall_source(kind, data, limit, rng)
